@@ -41,7 +41,7 @@ ASSUMPTIONS = [
     "rows within a few ulp of a range boundary and numerical-fallback force rows whose stencil crosses a "
     "boundary are not compared (counted)",
 ]
-REQUIRED = {"special:root_on_grid": 8, "special:decay_tail": 8, "special:growth": 4, "reject:four_rows": 2, "no_potentials:reject": 3, "accept": 60, "reject": 40, "reject:nr%4=2:api_class": 5, "reject:nr%4=2:writePotentials": 5,
+REQUIRED = {"special:root_on_grid": 8, "special:decay_tail": 8, "special:growth": 4, "special:other_units": 10, "reject:four_rows": 2, "no_potentials:reject": 3, "accept": 60, "reject": 40, "reject:nr%4=2:api_class": 5, "reject:nr%4=2:writePotentials": 5,
             "reject:nr%4=2:potable": 10, "route:potable:DL_POLY": 10, "route:potable:DLPOLY": 10,
             "route:api_class": 15, "route:writePotentials": 15}
 FMT = ("e", 7)
@@ -77,6 +77,21 @@ def _special(draw, kind):
     return m
 
 
+@st.composite
+def _units(draw, name):
+    """a built-in form in other units (energies x 10^e, lengths x 10^l) on the correspondingly scaled grid: the rows
+    sit at k*delpot whatever the magnitude of delpot"""
+    e, l = draw(st.sampled_from([(-19, -10), (0, -10), (0, -4), (3, 1), (-25, -8), (12, 2), (0, -6), (-6, 4)]))
+    p = gen.rescale(name, draw(gen.form_params(name)), e, l)
+    a, b = draw(st.sampled_from([("A", "B"), ("O", "U"), ("Xx", "Xx")]))
+    route = draw(st.sampled_from(["api_class", "writePotentials", "potable:DL_POLY", "potable:DLPOLY"]))
+    cutoff = draw(st.sampled_from([6.5, 10.0, 7.3, 2.5])) * 10.0 ** l
+    nr = 4 * draw(st.sampled_from([3, 10, 25, 100, 250]))
+    return {"env": {"custom": [], "table": []}, "species": sorted(set([a, b])), "cutoff": cutoff, "nr": nr, "route": route,
+            "pair": [[a, b, {"ranges": [{"m": None, "s": None, "body": {"k": "form", "name": name, "p": p}}]}]],
+            "container": "list", "special": "other_units"}
+
+
 def strategy(tier):
     return _case(80, True)
 
@@ -85,6 +100,7 @@ def strata(tier):
     mx = 80 if tier == "quick" else 2000
     out = [("accept", _case(mx, True), 12), ("root_on_grid", _special("root_on_grid"), 2),
            ("decay_tail", _special("decay_tail"), 2), ("growth", _special("growth"), 1)]
+    out += [("other_units:" + f, _units(f), 0.25) for f in gen.UNIT_FORMS if f not in ("zero", "constant")]
     for route in ("api_class", "writePotentials", "potable:DL_POLY", "potable:DLPOLY"):
         out.append(("reject:even:" + route, _case(mx, False, route, 2), 1))
         out.append(("reject:odd:" + route, _case(mx, False, route), 1))
